@@ -202,6 +202,11 @@ _v("a0d", lambda: np.array(1.5))
 _v("a1d_i2", lambda: np.array([1, 2]))
 _v("a1d_f2", lambda: np.array([1.5, 2.5]))
 _v("a1d_f3", lambda: np.array([1.0, 2.0, 3.0]))
+# same type character as float64 / int64, but not the same dtype
+_v("a1d_f2_swapped", lambda: np.array([1.5, 2.5]).astype(
+    np.dtype("float64").newbyteorder()))
+_v("a1d_i2_swapped", lambda: np.array([1, 2]).astype(
+    np.dtype("int64").newbyteorder()))
 _v("a1d_f1", lambda: np.array([1.0]))
 _v("a1d_f4", lambda: np.array([1.0, 2.0, 3.0, 4.0]))
 _v("a1d_0", lambda: np.array([], dtype=float))
@@ -778,6 +783,29 @@ def _scaled_model(v):
 cfg("ScaledMap", lambda: ScaledMap({"yes": 1, "no": 0}),
     lambda s: s in ("yes", "no"), _scaled_model, "syes", kind="MapSub",
     shadow=lambda s: {"yes": 1, "no": 0}[s] * 1000, skip=ARRAYS)
+
+
+# settable properties that validate (and convert) through a trait
+def _vp_get(self):
+    return self.__dict__.get("_vp", 0)
+
+
+def _vp_set(self, value):
+    self.__dict__["_vp"] = value
+
+
+def _validated_property_cfgs():
+    from traits.api import Property
+    for member in ("Float", "CInt", "CStr", "Range(0.0<=x<=1.0)" if
+                   "Range(0.0<=x<=1.0)" in CONFIGS else "Int"):
+        c = CONFIGS[member]
+        cfg("Property(%s)" % member,
+            lambda c=c: Property(_vp_get, _vp_set, trait=c.make()),
+            c.dom, c.model, c.good, kind="Property-validated",
+            skip=c.skip)
+
+
+_validated_property_cfgs()
 
 
 # legacy mapped compounds: a mapping alternative next to a container type;
